@@ -354,19 +354,27 @@ func (g *Gen) valField(st types.Type, fld *types.Var, x string) string {
 	return "(" + fn + " " + x + ")"
 }
 
-func (g *Gen) zeroInit(r string, t types.Type) {
+func (g *Gen) zeroInit(r string, t types.Type) { g.zeroInitD(r, t, 0) }
+
+func (g *Gen) zeroInitD(r string, t types.Type, depth int) {
 	switch u := t.Underlying().(type) {
 	case *types.Struct:
+		if depth > 0 && !inRepo(namedPkg(t)) {
+			return // embedded library structs (mutexes, buffers): opaque
+		}
 		for i := 0; i < u.NumFields(); i++ {
 			f := u.Field(i)
 			if isStructT(f.Type()) || isArrayT(f.Type()) {
-				g.zeroInit(g.subObj(t, f, r), f.Type())
+				g.zeroInitD(g.subObj(t, f, r), f.Type(), depth+1)
 				continue
 			}
 			h := g.fieldHeap(t, f)
 			g.guard(eq("(select "+g.heap(h)+" "+r+")", zeroOf(sortOf(f.Type()))))
 		}
 		// ghost fields of fresh objects start at their zero value
+		if depth > 0 {
+			return
+		}
 		for name := range g.S.Ghost {
 			h, s, _ := g.ghostHeap(name)
 			if g.ghostUsed(name) {
